@@ -56,7 +56,7 @@ def classifyAcl (auth : Bool) (u : User) (ml : MetaLine) : String :=
   let chOk (ch : Bytes) := (u.inclChans.any fun g => globMatch g ch) && !(u.exclChans.any fun g => globMatch g ch)
   if auth && !u.enabled then "disabled-user-stays-authorized"
   else if !(ml.sub.channels.all chOk) || !(ml.sub.reads.all mr) || !(ml.sub.writes.all mw) then "subcommand-footprint-not-checked"
-  else if ml.m.cats.contains (b "pubsub") && !(f.reads.all mr && f.writes.all mw) then "pubsub-category-skips-key-checks"
+  else if ml.m.cats.contains (b "pubsub") && (!(f.reads.all mr && f.writes.all mw) || (u.noKeys && !(f.reads.isEmpty && f.writes.isEmpty))) then "pubsub-category-skips-key-checks"
   else if !f.reads.isEmpty && u.readKeys.isEmpty && !u.noKeys then "empty-read-pattern-list-allows-reads"
   else if f.reads.any mr && !f.reads.all mr then "any-read-key-suffices"
   else if f.writes.any mw && !f.writes.all mw then "any-write-key-suffices"
